@@ -6,10 +6,10 @@ import ChibiVerif.Lemmas.InitSimLemmas
 namespace ChibiVerif.InitSpec
 open ChibiVerif.Init
 
-theorem cursorIn_arr {root : Ty} {top : Bool} {p : List Nat} {elem : Ty} {len : Nat} (ho : tyOk root = true)
+theorem cursorIn_arr {root : Ty} {top : Bool} {p : List Nat} {elem : Ty} {len : Nat} (hg : growable root top p = false)
     (ht : subTy root p = some (.array elem len)) (i : Nat) :
     cursorIn root top p i = if i < len then some (p ++ [i]) else next root top p.reverse := by
-  simp [cursorIn, ht, growable_false ho ht]
+  simp [cursorIn, ht, hg]
 
 theorem childTy_arr (elem : Ty) (len k : Nat) : childTy (.array elem len) k = some elem := rfl
 
@@ -48,12 +48,12 @@ theorem sim_arr2loop {f : Nat} (ih : Sim f) : Arr2LoopSt (f+1) := by
         obtain ⟨g2, h2⟩ := himp2 hM1 g1 fl
         refine ⟨g2, ?_⟩
         have hne : consumeEnd (ITok.comma :: toks1) = none := consumeEnd_none_of_isEnd hcond.2
-        have e0 : initList (g+1) root top obj (cursorIn root top p i) (.comma :: toks1) false fl =
-            initItem g root top obj [p ++ [i]] toks1 fl := by
-          rw [initList_item _ _ _ _ _ _ _ _ hne]
+        have e0 : Imp (initList (g+1) root top obj (cursorIn root top p i) (.comma :: toks1) false fl)
+            (initItem g root top obj [p ++ [i]] toks1 fl) := by
+          refine Imp.of_item hne (Imp.of_eq ?_)
           have hil : i < len := hlen ▸ of_decide_eq_true hcond.1
-          simp [skipTok, ok_bind, pathsOf, hd, cursorIn_arr hA.rootOk hA.sub, hil]
-        rw [e0]
+          simp [skipTok, ok_bind, pathsOf, hd, cursorIn_arr hA.ng hA.sub, hil]
+        refine e0.trans ?_
         simp only [After] at h1 h2 ⊢
         rw [List.reverse_append, List.reverse_singleton, List.singleton_append, next_snoc] at h1
         have e3 : setAtM (setAtM obj (p ++ [i]) ci') p c' = setAtM obj p c' := by rw [e1, setAtM_over hA]
@@ -66,7 +66,7 @@ theorem sim_arr2loop {f : Nat} (ih : Sim f) : Arr2LoopSt (f+1) := by
     simp only [Init.children, Bool.and_eq_true, decide_eq_true_eq, Bool.not_eq_true', not_and, Bool.not_eq_false] at hcond
     by_cases hil : i < cs.length
     · exact Imp.of_eq (initList_stopped _ _ _ _ _ _ _ _ (Or.inl (hcond (decide_eq_true hil))))
-    · rw [cursorIn_arr hA.rootOk hA.sub]
+    · rw [cursorIn_arr hA.ng hA.sub]
       have : ¬ i < len := hlen ▸ hil
       simp [this]
       exact Imp.refl _
@@ -81,10 +81,9 @@ theorem isEnd_not_startable {tok : ITok} {r : List ITok} (h : isEnd (tok :: r) =
 theorem isDesg_not_startable {tok : ITok} {r : List ITok} (h : isDesg (tok :: r) = true) : startable tok = false := by
   cases tok <;> simp [isDesg] at h <;> rfl
 
-theorem firstSub_arr {root : Ty} {top : Bool} {p : List Nat} {elem : Ty} {len : Nat} (ho : tyOk root = true)
-    (ht : subTy root p = some (.array elem len)) :
+theorem firstSub_arr {root : Ty} {top : Bool} {p : List Nat} {elem : Ty} {len : Nat} (hg : growable root top p = false) :
     firstSub root top p (.array elem len) = if len > 0 then some 0 else none := by
-  simp [firstSub, growable_false ho ht]
+  simp [firstSub, hg]
 
 theorem sim_arr2loop0 {f : Nat} (ih : Sim f) : Arr2Loop0St (f+1) := by
   intro root top obj p elem len c toks c' toks' hA hel h
@@ -121,7 +120,7 @@ theorem sim_arr2loop0 {f : Nat} (ih : Sim f) : Arr2Loop0St (f+1) := by
         refine ⟨g2, ?_⟩
         have hl0 : 0 < len := hlen ▸ of_decide_eq_true hcond.1
         have hfs : firstSub root top p (.array elem len) = some 0 := by
-          rw [firstSub_arr hA.rootOk hA.sub]; simp [hl0]
+          rw [firstSub_arr hA.ng]; simp [hl0]
         have h0 := initItem_descend_step (g := g) (obj := obj) (r := r) (fl := fl) hb hA.sub hst hfs
         simp only [After] at h1 h2 ⊢
         rw [List.reverse_append, List.reverse_singleton, List.singleton_append, next_snoc] at h1
@@ -139,7 +138,7 @@ theorem sim_arr2loop0 {f : Nat} (ih : Sim f) : Arr2Loop0St (f+1) := by
       by_cases hl0 : 0 < cs.length
       · exact Imp.of_lhs_error (initItem_not_startable _ _ _ _ _ _ _ _ (isEnd_not_startable (hcond (decide_eq_true hl0))))
       · have hfs : firstSub root top p (.array elem len) = none := by
-          rw [firstSub_arr hA.rootOk hA.sub]; simp; omega
+          rw [firstSub_arr hA.ng]; simp; omega
         exact Imp.of_lhs_error (initItem_descend_none hb hA.sub hst hfs)
 
 theorem sim_arr2 {f : Nat} (ih : Sim f) : Arr2St (f+1) := by
@@ -177,16 +176,18 @@ theorem foldlM_single {α β : Type} {step : β → α → Except Fail β} {a : 
 theorem range'_one (b e : Nat) (h : e = b) : List.range' b (e + 1 - b) = [b] := by
   subst h; simp
 
-theorem At.root {ty : Ty} {c : Init} (ho : subOk ty = true) (hs : shaped ty c = true) : At ty c [] ty c where
+theorem At.root {ty : Ty} {top : Bool} {c : Init} (ho : subOk ty = true) (hs : shaped ty c = true) : At ty top c [] ty c where
   rootOk := subOk_tyOk ty ho
-  shp := hs
+  topOk := fun h => by rw [isFlexRoot_subOk ho] at h; cases h
+  pok := pathOk_of_not_flex (isFlexRoot_subOk ho) _
+  shp := by rw [shapedR_of_not_flex (isFlexRoot_subOk ho)]; exact hs
   sub := rfl
   get := rfl
   ok := ho
 
 theorem cursorIn_arr_root (elem : Ty) (len : Nat) (top : Bool) (i : Nat) (ho : subOk (.array elem len) = true) :
     cursorIn (.array elem len) top [] i = if i < len then some [i] else none := by
-  rw [cursorIn_arr (subOk_tyOk _ ho) rfl]; simp [next_nil]
+  rw [cursorIn_arr (by simp [growable]) rfl]; simp [next_nil]
 
 theorem desigPaths_dot_arr (elem : Ty) (len : Nat) (top : Bool) (d : Nat) (n : String) (r : List ITok) :
     ∃ e, desigPaths (.array elem len) top d [[]] (.dot n :: r) = .error e := by
@@ -212,7 +213,7 @@ theorem desgStep_shape {f : Nat} (ih : Sim f) {elem : Ty} {len : Nat} (ho : subO
   obtain ⟨cs, hcs, hlen, hall⟩ := arr_of_shaped hs
   rw [hcs] at hcj ⊢
   have hk : (Init.arr cs).children[j]? = some cj := getChild_ok hcj
-  have hA := (At.root ho (hcs ▸ hs)).child (childTy_arr elem len j) hk
+  have hA := (At.root (top := false) ho (hcs ▸ hs)).child (childTy_arr elem len j) hk
   obtain ⟨hsj, _⟩ := ih.desg (top := false) hA hd
   have := shaped_set_child (hcs ▸ hs) (childTy_arr elem len j) hk hsj
   rwa [setAtM_one_arr] at this
